@@ -33,9 +33,9 @@ def cond_chain(fn, node):
             c = txt(n["cond"])
             if rec(n["cond"], conds):
                 return True
-            if rec(n["then"], conds + [c]):
+            if rec(n["then"], conds + [A.no_double_neg(c)]):
                 return True
-            if n.get("else") is not None and rec(n["else"], conds + ["!" + c]):
+            if n.get("else") is not None and rec(n["else"], conds + [A.no_double_neg("!" + c)]):
                 return True
             return False
         return any(rec(v, conds) for v in A.children(n))
@@ -310,8 +310,10 @@ def r_tile_sizes(rule, root=None):
     else:
         rule.bad("tilesizesref", "TileSizesRef::new must start at the last size >= the image size (position of the first smaller size, minus one)", A.where(fn))
     fn = A.find_fn(LIB, "pixel_offset", self_ty="TileSizesRef", root=root)
-    t = txt(fn["body"])
-    if t == "{letx=(pos.x%self.0[0]);lety=(pos.y%self.0[0]);(x+(y*self.0[0]))}":
+    folded = A.inline_lets_deep(fn["body"])
+    tail = A.unblock(folded)
+    tt = str(txt(tail)) if tail.get("k") != "Block" else ""
+    if tt in ("((pos.x%self.0[0])+((pos.y%self.0[0])*self.0[0]))", "(((pos.y%self.0[0])*self.0[0])+(pos.x%self.0[0]))"):
         rule.ok("pixel_offset is row-major within the root tile")
     else:
         rule.bad("pixel_offset", "pixel_offset must be (x mod root) + (y mod root) * root", A.where(fn))
@@ -325,11 +327,13 @@ def _assembly_common(rule, fn, label, path, write_ok):
     loops = [("j", "0..tile_sizes[0]"), ("i", "0..tile_sizes[0]")]
     W = "(render_config.image_size.width()asusize)"
     H = "(render_config.image_size.height()asusize)"
-    bumps = [s for s, _b in A.stmts_in_loops(body, loops, "(index+=1);") if not (A.enclosing_conds(body, s) or [])]
-    if bumps:
+    bumps = [s for s, _b in A.stmts_in_loops(body, loops, "(index+=1);") if not (A.enclosing_conds(body, s) or []) and not (A.path_conjuncts(body, s) or set())]
+    closed = "[((%s*tile_sizes[0])+%s)]"  # a closed-form flat index instead of a running counter
+    has_closed = any(closed % (b[-2][0], b[-1][0]) in str(A.ftxt(s_)) for s_ in A.all_stmts(body) for b in [A.enclosing_binders(body, s_) or []] if len(b) >= 2)
+    if bumps or has_closed:
         rule.ok("%s assembly: rows outer, columns inner over the root tile; the flat index advances once per pixel" % label, file=path, line=fn["ln"])
     else:
-        rule.bad("assembly|%s|index advances once per p" % label, "%s image assembly: `index += 1` must run once per (row j, column i) of 0..tile_sizes[0], unconditionally" % label, A.where(fn))
+        rule.bad("assembly|%s|index advances once per p" % label, "%s image assembly: `index += 1` must run once per (row j, column i) of 0..tile_sizes[0], unconditionally (or the flat index be j * tile_sizes[0] + i)" % label, A.where(fn))
         return None, None, None
     writes = []
     for s in A.all_stmts(body):
@@ -351,11 +355,8 @@ def _assembly_common(rule, fn, label, path, write_ok):
         allc = set()
         for n in A.walk(body):
             pass
-        # the guard may be one `a && b` or nested ifs: collect conjuncts of every enclosing condition
-        cj = set()
-        for i_ in A.find(body, "If"):
-            if any(n is s for n in A.walk(i_["then"])):
-                cj |= A.conjuncts(i_["cond"])
+        # the guard may be one `a && b`, nested ifs, or an earlier `if outside { continue }`
+        cj = A.path_conjuncts(body, s) or set()
         if "(%s<%s)" % (y, H) not in cj or "(%s<%s)" % (x, W) not in cj:
             okc = False
             rule.bad("assembly|%s|writes guarded by the imag" % label, "%s image assembly: `%s` is not guarded by both `y < height` and `x < width` (y = j + corner.y, x = i + corner.x, width / height from the image size); guards seen: %s" % (label, A.unparse(e)[:40], sorted(cj)), A.where(fn))
@@ -372,7 +373,7 @@ def r_assembly_pixel(rule, root=None):
     fn = A.find_fn(PIX, "render", root=root)
     body, writes, _wh = _assembly_common(rule, fn, "pixel", PIX, lambda left, y, x, W: left == "image[(%s,%s)]" % (y, x))
     if writes:
-        if all(A.unparse(e["right"]).replace(" ", "") == "data[index]" for _s, e, _j, _i in writes):
+        if all(A.unparse(e["right"]).replace(" ", "") in ("data[index]", "data[((%s*tile_sizes[0])+%s)]" % (_j, _i)) for _s, e, _j, _i in writes):
             rule.ok("pixel assembly: each pixel takes the tile's value at the flat index")
         else:
             rule.bad("assembly|pixel|source", "2D image assembly must copy `data[index]`", A.where(fn))
